@@ -361,7 +361,7 @@ def key_agreement(ctx, R, label, owner_q, sfunc, lfunc, sinfo, linfo, reg):
                   % (lfunc.construct, miss, sfunc.construct), where=where(lfunc))
     dropped = []
     for k in sorted(written):
-        if k in linfo.read:
+        if k in linfo.read or k in ('_protocol', '_type'):
             continue
         exc = WRITTEN_NOT_READ.get((owner_q, k))
         if exc:
